@@ -4,17 +4,19 @@ import os
 from vf import Inconclusive, parallel, require_clean, validate_traces, trace_slice, vfj_lines, b2s
 
 CLAIM = {
-    "text": "Sorting.tla specifies, per sort mode, the order axioms every comparator must satisfy on every pool of distinct keys (asymmetric, total, transitive; reverse = converse) and the strict order on homogeneous pools (decimal magnitude, weekday/month position, chronological by INSTANT in five layouts - two of them with numeric UTC offsets, so one instant has several spellings -, totals as mathematical integers of a bounded type with an explicit width, raw bytes), plus the --sort name:modifier table; TLC proves on the model that the axioms make every start permutation of an implementation-shaped sort end in one sequence (and that a non-transitive comparator does not), checks the laws of the specified orders over key universes, that the scaling map binding narrow totals to the 64-bit code is monotone, reaches both extremes and commutes with wrapping subtraction for every pair of widths, and rejects two negative controls (a value comparator deciding by the sign of the wrapped difference; a date comparator that breaks ties only between equal offsets). The real comparators built by helpers.BuildSorter are then evaluated on all ordered pairs of seeded key pools (fresh instance per pair and one instance reused), every permutation of small subsets and random permutations of larger pools are sorted through sorting.Sort/SortBy, the aggregators' sorted accessors (Go map order) and the rare binary, and TLC validates every recorded decision matrix and sort result against the specification; TLC-enumerated homogeneous pools (incl. pools with tied keys and pools of totals spanning the whole int64 range) with the ranks the specification assigns are replayed on the real code.",
-    "note": "Bounded: pools of at most 21 keys from fixed universes (numbers in several spellings, text, weekday/month names, three date layouts, mixtures, unmodelled spellings); the model sort is insertion sort (what sort.Sort runs up to 12 keys) plus the uniqueness law for any correct comparison sort. Totals reach the code as v*2^(64-W)+off for W-bit model totals v (W <= 16; offsets 0, 1, 2^(64-W)-1, or a separate lowest bit), so every total the code sees is one of at most 2^17 points of the int64 range, the extremes included. Layout detection (dateparse) is trusted on the five modelled layouts and on digit-free keys; UTC offsets up to 14:59; locale is not modelled; nothing is demanded of less(k,k). Known findings: the contextual and date comparators switch strategy for good after the first key they cannot place, so mixed pools are ordered by arrival.",
+    "text": "Sorting.tla specifies, per sort mode, the order axioms every comparator must satisfy on every pool of distinct keys (asymmetric, total, transitive; reverse = converse) and the strict order on homogeneous pools (decimal magnitude, weekday/month position, chronological by INSTANT in five layouts - two of them with numeric UTC offsets, so one instant has several spellings -, totals as mathematical integers of a bounded type with an explicit width, raw bytes), plus the --sort name:modifier table; TLC proves on the model that the axioms make every start permutation of an implementation-shaped sort end in one sequence (and that a non-transitive comparator does not), checks the laws of the specified orders over key universes, that the scaling map binding narrow totals to the 64-bit code is monotone, reaches both extremes and commutes with wrapping subtraction for every pair of widths, and rejects two negative controls (a value comparator deciding by the sign of the wrapped difference; a date comparator that breaks ties only between equal offsets). The real comparators built by helpers.BuildSorter are then evaluated on all ordered pairs of seeded key pools (fresh instance per pair and one instance reused), every permutation of small subsets and random permutations of larger pools are sorted through sorting.Sort/SortBy, the aggregators' sorted accessors (Go map order) and the rare binary, and TLC validates every recorded decision matrix and sort result against the specification; TLC-enumerated homogeneous pools (incl. pools with tied keys and pools of totals spanning the whole int64 range) with the ranks the specification assigns are replayed on the real code. Look-alikes: only the names and abbreviations of the two calendar tables have a calendar position; plain text keys that merely begin like one (monitoring, Thu., Mondays, decoder) are text in every universe, pool and vector, SortingSticky.tla runs the contextual comparator as an object (inferred table, sticky fallback) through the sort from every start permutation (specified membership on homogeneous pools accepted; membership by 3-letter prefix and mixed pools refuted), and a new comparator asked about two keys of one kind must decide as the two-key pool is specified even inside a mixed pool. reduce: SortingAccum.tla specifies the accumulating group as a long-lived object (rows folded from samples, sort expressions, ranks on the current rows, RowsOnly: equal rows are listed identically whatever the arrival order and whatever was displayed before); SortingAccumImpl.tla accepts the design of the implementation (sort started from the group keys) and refutes first-seen order, reversed first-seen order and remembered sort values; TLC-enumerated histories (every order of the samples, a display in the middle and at the end) are replayed on real AccumulatingGroup objects and a sample on the rare binary.",
+    "note": "Bounded: pools of at most 21 keys from fixed universes (numbers in several spellings, text, weekday/month names, three date layouts, mixtures, unmodelled spellings); the model sort is insertion sort (what sort.Sort runs up to 12 keys) plus the uniqueness law for any correct comparison sort. Totals reach the code as v*2^(64-W)+off for W-bit model totals v (W <= 16; offsets 0, 1, 2^(64-W)-1, or a separate lowest bit), so every total the code sees is one of at most 2^17 points of the int64 range, the extremes included. Layout detection (dateparse) is trusted on the five modelled layouts and on digit-free keys; UTC offsets up to 14:59; locale is not modelled; nothing is demanded of less(k,k). reduce histories: 3 groups per universe (numbers, text, weekdays), at most 4 (5) samples with values 1, 2 (-2), columns sum / count / maximum, six sort expressions, both directions. Known findings: the contextual and date comparators switch strategy for good after the first key they cannot place, so mixed pools are ordered by arrival.",
     "technique": "TLA+ model checking (TLC) of order axioms and a comparator-driven sort + trace validation of recorded comparator matrices and sort results + model-vector replay",
 }
 
+ACC_EXPR = {"none": "no --sort", "key": "--sort {0}", "sum": "--sort {s}", "cnt": "--sort {c}", "max": "--sort {m}",
+            "negsum": "--sort '{subi 0 {s}}'"}
 MC_INVS = ("ModelAsym ModelTotal ModelTrans ModelIrrefl ModelExtendsSpec SpecIrrefl SpecAsym SpecTrans SpecTieTrans "
            "TextTotal NumAgrees KindSanity ParseCase ParseDefault ParseMods ParseStrict ParseModeSet "
-           "CivilAgrees UnixAgrees UniverseOK")
+           "CivilAgrees UnixAgrees UniverseOK LookIsText")
 WIDTH_INVS = ("EmbedRange EmbedMonotone EmbedExtremes EmbedNeighbours EmbedHom WrapExact WrapInverts DiffLessCommutes DiffLessBroken "
               "MathLessOrder")
-LAWS = "total asym trans same converse deterministic reverse matrix spec perm parse shape"
+LAWS = "total asym trans same converse deterministic reverse matrix spec pair perm parse shape"
 
 
 def algo_cfg(n, comparators, invs, props=True):
@@ -63,9 +65,12 @@ def check(run):
         require_clean(run, w, "SortingWidth laws")
         # negative controls (not part of the verdict): the model must REJECT a value comparator deciding by the
         # sign of the wrapped difference and a date comparator that breaks ties only between equal offsets
-        for variant, must in (("wrapdiff", ("ModelAsym", "ModelTrans")), ("eqloc", ("ModelTotal",))):
-            ncfg = ("INIT NegInit\nNEXT Next\nCONSTANTS Big = %s\n Variant = \"%s\"\nINVARIANTS ModelAsym ModelTotal ModelTrans\n"
-                    "CHECK_DEADLOCK FALSE\n" % (big, variant))
+        # ... and a contextual comparator giving a calendar position to every key that merely begins like a weekday /
+        # month abbreviation (it contradicts the specified text order of such keys)
+        for variant, must in (("wrapdiff", ("ModelAsym", "ModelTrans")), ("eqloc", ("ModelTotal",)),
+                              ("prefix3", ("ModelExtendsSpec", "ModelTrans"))):
+            ncfg = ("INIT NegInit\nNEXT Next\nCONSTANTS Big = %s\n Variant = \"%s\"\nINVARIANTS ModelAsym ModelTotal ModelTrans%s\n"
+                    "CHECK_DEADLOCK FALSE\n" % (big, variant, " ModelExtendsSpec" if variant == "prefix3" else ""))
             n = run.tlc("Sorting_MC", ncfg, workers=1, timeout=1200,
                         label="Sorting_MC negative control %s (expected counter-example)" % variant)
             if not any(m in n.violated for m in must):
@@ -103,6 +108,59 @@ def check(run):
         if "PermInvariant" not in r.violated:
             raise Inconclusive("sanity: a non-transitive comparator did not break permutation invariance on the model")
         return out
+
+    def b3_objects():
+        # the contextual comparator as an object (set inference + sticky fallback) driving the sort from every start:
+        # the specified membership on homogeneous pools (look-alikes of weekday / month names are text) satisfies
+        # SpecOrder / PermInvariant; the controls "membership by 3-letter prefix" and "mixed pools" must be refuted
+        st = run.tlc("SortingSticky", "INIT CtlInit\nNEXT Next\nCONSTANTS Which = \"%s\"\nINVARIANTS Laws CtlMark\n"
+                     "POSTCONDITION CtlAllRefuted\nCHECK_DEADLOCK FALSE\n" % ("all" if quick else "deep"), workers=1, timeout=3000,
+                     label="SortingSticky: comparator object x insertion sort, code setup + 2 negative controls (must be refuted)")
+        if st.violated or st.errors or st.postcond_failed or not st.finished:
+            raise Inconclusive("SortingSticky: a law failed on the specified comparator or a negative control was not "
+                               "refuted: %s" % st.out[-1500:])
+        # reduce's accumulating group as a long-lived object: every history of samples (all arrival orders) and
+        # displays; design keyorder satisfies RanksHold / RowsOnlyInv / PermInv, the designs arrival / arrivalrev /
+        # memo must be refuted
+        acc = run.tlc("SortingAccumImpl", "INIT CtlInit\nNEXT Next\nCONSTANTS DesignSet = {\"keyorder\", \"arrival\", "
+                      "\"arrivalrev\", \"memo\"}\n MaxOps = %d\n Vals = {1, 2}\nINVARIANTS Laws CtlMark\nPOSTCONDITION CtlAllRefuted\n"
+                      "CHECK_DEADLOCK FALSE\n" % 3, workers=1, timeout=3000,
+                      label="SortingAccumImpl: accumulating group, design keyorder + 3 negative controls (must be refuted)")
+        if acc.violated or acc.errors or acc.postcond_failed or not acc.finished:
+            raise Inconclusive("SortingAccumImpl: a law failed on the design of the implementation or a negative control "
+                               "was not refuted: %s" % acc.out[-1500:])
+        if not quick:
+            deep = run.tlc("SortingAccumImpl", "INIT Init\nNEXT Next\nCONSTANTS DesignSet = {\"keyorder\"}\n MaxOps = 4\n"
+                           " Vals <- NegVals\nINVARIANTS Laws\nCHECK_DEADLOCK FALSE\n", workers=4, timeout=3000,
+                           label="SortingAccumImpl: design keyorder, histories of 4 samples, values 1 2 -2")
+            require_clean(run, deep, "SortingAccumImpl keyorder deep")
+        return st, acc
+
+    # ------------------------------------------------------------------ B1 (accumulating group): histories -> real object
+    def b1_accum():
+        cfg = "INIT GInit\nNEXT GNext\nCONSTANTS Big = %s\nINVARIANTS Dump\nCHECK_DEADLOCK FALSE\n" % ("FALSE" if quick else "TRUE")
+        r = run.tlc("SortingAccum_Gen", cfg, workers=3 if quick else 6, timeout=3000, label="SortingAccum_Gen Big=%s" % (not quick))
+        if r.violated or r.errors:
+            raise Inconclusive("accumulating-group generator failed: %s" % r.out[-2000:])
+        vec_path = os.path.join(run.scratch, "c13-accum-vectors.ndjson")
+        nvec = 0
+        with open(vec_path, "w") as f:
+            for v in vfj_lines(r.out):
+                f.write(json.dumps(v, separators=(",", ":")) + "\n")
+                nvec += 1
+        if nvec < 3000:
+            raise Inconclusive("accumulating-group generator produced only %d histories" % nvec)
+        res_path = os.path.join(run.scratch, "c13-accum.json")
+        run.drv(["accum", "-in", vec_path, "-out", res_path, "-rare", rare, "-cli", 30 if quick else 200], timeout=3000)
+        return json.load(open(res_path))
+
+    # ------------------------------------------------------------------ B2 (accumulating group): recorded listings -> trace validation
+    def b2_accum():
+        tr = os.path.join(run.scratch, "c13-acctrace.ndjson")
+        st = os.path.join(run.scratch, "c13-acctrace-stats.json")
+        run.drv(["acctrace", "-out", tr, "-stats", st, "-families", 40 if quick else 60, "-orders", 4 if quick else 6], timeout=3000)
+        res, r = validate_traces(run, "SortingAccum_Trace", tr, label="SortingAccum_Trace", xmx="3g", timeout=3000)
+        return json.load(open(st)), tr, res
 
     # ------------------------------------------------------------------ B1: model vectors -> real code
     def b1():
@@ -153,7 +211,8 @@ def check(run):
                 run, "Sorting_Trace", path, label="Sorting_Trace %s" % mode, xmx="3g", timeout=3000)))
         return stats, parallel(jobs, 5)
 
-    b3l, b3w, b3a, b1res, (stats, b2res) = parallel([b3_laws, b3_width, b3_algo, b1, b2], 5)
+    b3l, b3w, b3a, b3o, b1res, accres, (accst, acctr, accbad), (stats, b2res) = parallel(
+        [b3_laws, b3_width, b3_algo, b3_objects, b1, b1_accum, b2_accum, b2], 6)
 
     # ------------------------------------------------------------------ B1 verdicts
     run.cov["traces_validated_against_impl"] += b1res["runs"]
@@ -172,6 +231,54 @@ def check(run):
                       "ranks the keys %s (equal rank = tie): %s" % (
                           b2s(v["sort"]), m["names"], [k["value"] for k in v["pool"]], json.dumps(v["vmap"]), m["perm"],
                           m["via"], m["got"], v["ranks"], what), m)
+
+    # ------------------------------------------------------------------ B1 verdicts, accumulating group
+    run.cov["traces_validated_against_impl"] += accres["listings"]
+    run.cov["evaluations"] += accres["listings"]
+    run.cov["distinct_nontrivial"] += accres["distinct_nontrivial"]
+    run.cov["b1_accum"] = {k: accres[k] for k in ("vectors", "listings", "rows_classes", "cli_runs")}
+    for s in accres["samples"] or []:
+        run.sample({"b1_accum_history": s})
+    for m in accres["mismatches"] or []:
+        what = {"perm": "the listing is not the set of groups present",
+                "order": "a group is listed after one whose sort value the sorter puts behind it (ranks of the CURRENT rows)",
+                "arrival": "the same rows, reached by delivering the samples in another order (%s), were listed as %s" % (
+                    m.get("other_history"), m.get("other")),
+                "history": "the same rows, reached through another history (%s), were listed as %s" % (
+                    m.get("other_history"), m.get("other"))}[m["kind"]]
+        run.violation("b1:accum:%s:%s:%s" % (m["expr"], m["sorter"], m["kind"]),
+                      "reduce %s, sorter %s, groups %s, history '%s': Groups() listed %s; rows (sum, count, max per group) %s, "
+                      "specified ranks %s%s: %s (%d listings)" % (
+                          ACC_EXPR.get(m["expr"], m["expr"]), m["sorter"], m["names"], m["history"], m["got"], m["rows"], m["ranks"],
+                          " (tied sort values)" if m["ties"] else "", what, m["count"]), m)
+
+    # ------------------------------------------------------------------ B2 verdicts, accumulating group
+    if accbad["consumed"] != accst["records"]:
+        raise Inconclusive("SortingAccum_Trace consumed %d of %d records" % (accbad["consumed"], accst["records"]))
+    run.cov["traces_validated_against_impl"] += accst["records"]
+    run.cov["evaluations"] += accst["records"]
+    run.cov["distinct_nontrivial"] += accst["histories"]
+    run.cov["b2_accum"] = accst
+    acclines = None
+    accseen = {}
+    for bad in accbad["bad"]:
+        if bad["law"] == "harness":
+            raise Inconclusive("malformed accumulating-group record at line %d" % bad["l"])
+        if acclines is None:
+            acclines = open(acctr).read().splitlines()
+        key = (bad["law"], bad["expr"], bad["rev"])
+        accseen[key] = accseen.get(key, 0) + 1
+        if accseen[key] > 1:
+            continue
+        rec = json.loads(acclines[bad["l"] - 1])
+        what = {"perm": "the listing is not the set of groups present",
+                "order": "a group is listed after one whose CURRENT sort value the sorter puts behind it",
+                "rows": "equal rows (same universe, expression, direction) reached through another recorded history were listed "
+                        "differently"}[bad["law"]]
+        run.violation("b2:accum:%s:%s:%s" % (bad["law"], bad["expr"], "ctxrev" if bad["rev"] else "ctx"),
+                      "reduce %s%s, group universe %s, samples (group, value) %s: Groups() listed %s: %s" % (
+                          ACC_EXPR.get(bad["expr"], bad["expr"]), " reversed" if bad["rev"] else "", bad["univ"], rec["ops"], rec["got"],
+                          what), rec)
 
     # ------------------------------------------------------------------ B2 verdicts
     run.cov["traces_validated_against_impl"] += stats["sorts"] + stats["matrices"]
@@ -216,4 +323,6 @@ def check(run):
                        "(tied keys included where the universe has them; totals under five value maps), every permutation and "
                        "every aggregator accessor, non-trivial = >= 3 keys; "
                        "B2: one trace per (pool, mode): 10-12 decision matrices + sorts of every permutation of small subsets, "
-                       "random permutations, map-order starts and CLI runs; every trace has >= 3 keys")
+                       "random permutations, map-order starts and CLI runs; every trace has >= 3 keys; "
+                       "B1 accumulating group: every history of <= 4 samples over 3 groups with an optional display in the "
+                       "middle, non-trivial = >= 3 samples")
